@@ -366,6 +366,7 @@ impl cbor_event::se::Serialize for ExtendedAddr {
 impl cbor_event::de::Deserialize for ExtendedAddr {
     fn deserialize<R: BufRead>(reader: &mut Deserializer<R>) -> cbor_event::Result<Self> {
         let bytes = cbor::util::raw_with_crc32(reader)?;
+        let payload_len = bytes.len() as u64;
         let mut raw = Deserializer::from(std::io::Cursor::new(bytes));
         raw.tuple(3, "ExtendedAddr")?;
         let addr_bytes = raw.bytes()?;
@@ -378,6 +379,10 @@ impl cbor_event::de::Deserialize for ExtendedAddr {
         })?;
         let attributes = cbor_event::de::Deserialize::deserialize(&mut raw)?;
         let addr_type = cbor_event::de::Deserialize::deserialize(&mut raw)?;
+        // the CRC-protected payload is exactly this 3-tuple: anything after it would be lost on re-encoding
+        if raw.as_mut_ref().position() != payload_len {
+            return Err(cbor_event::Error::TrailingData);
+        }
         Ok(ExtendedAddr {
             addr,
             addr_type,
